@@ -5,6 +5,9 @@
 use super::*;
 
 pub const MAXCAP: usize = 1usize << 40;
+/// bits 2..=4 of an inline-Vec `data` word hold original_capacity_repr (Appendix A).  Stated here,
+/// not taken from the crate, so that the invariant does not move with the code (seed C04-6).
+pub const REPR_MASK: usize = 0b11100;
 
 #[derive(Clone, Copy)]
 pub struct MGhost {
@@ -140,7 +143,7 @@ pub fn wf_marc(b: &BytesMut, g: &MGhost, p: usize, len: usize, cap: usize) -> bo
 pub fn wf_mvec(b: &BytesMut, base: usize, vcap: usize, off: usize, len: usize, repr: usize) -> bool {
     b.kind() == KIND_VEC
         && (b.data as usize) >> VEC_POS_OFFSET == off
-        && ((b.data as usize) & ORIGINAL_CAPACITY_MASK) >> ORIGINAL_CAPACITY_OFFSET == repr
+        && ((b.data as usize) & REPR_MASK) >> ORIGINAL_CAPACITY_OFFSET == repr
         && b.ptr.as_ptr() as usize == base + off
         && b.len == len
         && off <= vcap
